@@ -73,6 +73,12 @@ class FuncFacts(object):
                         self._bind(it.optional_vars, it.context_expr)
             elif isinstance(node, ast.ExceptHandler) and node.name:
                 self.assigns.setdefault(node.name, []).append(ast.Constant(None))
+            elif isinstance(node, ast.Lambda):
+                # lambda e=elem: ... -- the parameter names what its default names
+                a = node.args
+                ps = a.posonlyargs + a.args
+                for prm, d in zip(ps[len(ps) - len(a.defaults):], a.defaults):
+                    self.assigns.setdefault(prm.arg, []).append(d)
             elif isinstance(node, ast.Call) and isinstance(node.func, ast.Attribute) and node.func.attr in (
                     "append", "add", "setdefault", "insert", "extend", "update"):
                 root, _ = chain_of(node.func.value)
@@ -572,7 +578,7 @@ def assembly_write_set(ctx, rule_prefix: str):
              "a record passed to assemble() is written to: `%s` (reaches %s%s); only the citation rewrite may touch an input"
              % (s.text(), ", ".join(hits), (" via " + s.via) if s.via else ""), s.where)
     r.analysed["input_write_sites"] = listing
-    r.floor(rule_prefix + ".input-write", 4)
+    r.floor(rule_prefix + ".input-write", 2)  # the two citation slot stores; the list idioms (setdefault / append) may be spelled otherwise
     return eff, sites
 
 
@@ -750,10 +756,9 @@ def persistent_state_rule(ctx, rule: str, scope_modules=("moclo.core._structured
     r.analysed["class_level_slots_written_at_call_time"] = n_class_slots
     if n_class_slots < 1:
         # no cache at all is an accepted idiom, but then the anchor must say so
-        owner = p.get_class("moclo.core._structured.StructuredRecord")
-        gr = owner.attrs.get("_get_regex")
-        if not isinstance(gr, FuncInfo):
-            raise AnalysisError("anchor vanished: StructuredRecord._get_regex")
+        from .roles import regex_getter
+
+        gr = regex_getter(p)
         r.ob(rule + ".class-slot", gr.qualname + "#<none>", True, "", gr.where())
     if not getattr(r, "_fixture_fired", False):
         raise AnalysisError("the positive fixture of the persistent-state rule did not match: the rule is dead")
@@ -892,12 +897,12 @@ def raise_inventory(ctx, rule: str):
         if not kc.concrete:
             continue
         ci = kc.ci
-        for c in p.mro(ci):
-            if isinstance(c, ClassInfo):
-                raw = c.attrs.get("_match")
-                if isinstance(raw, FuncInfo) and id(raw) not in seen:
-                    seen.add(id(raw))
-                    match_funcs.append(raw)
+        from .roles import match_call_tree
+
+        for raw in match_call_tree(p, ci):
+            if id(raw) not in seen:
+                seen.add(id(raw))
+                match_funcs.append(raw)
     if len(match_funcs) < 1:
         raise AnalysisError("anchor vanished: no _match implementation on the MRO of the kit classes")
     inv_seq = p.get_class("moclo.errors.InvalidSequence")
@@ -1218,3 +1223,84 @@ def record_instance_state_rule(ctx, rule: str, entries):
              % (fi.name, "; ".join("line %d: %s" % b for b in bad)), fi.where())
     if not checked:
         raise AnalysisError("anchor vanished: none of %s is defined in CircularRecord" % (sorted(entries),))
+
+
+# ---------------------------------------------------------------------------
+# itertools.groupby traps (C03: duplicate detection must not depend on order or spelling)
+
+
+def groupby_rule(ctx, rule: str):
+    """itertools.groupby only merges *adjacent* items with equal keys.  In the
+    assembly layer every groupby must therefore run over an iterable sorted by
+    the very key it groups by: grouping an unsorted input collection, or
+    grouping case-insensitively what was sorted case-sensitively, leaves equal
+    keys in separate groups -- duplicates go unnoticed for some argument
+    orders / spellings.  Other key pairs are not judged (analysis error)."""
+    from .roles import layer_functions
+
+    p = ctx.program
+    r = ctx.report
+    r.ob(rule, "<assembly layer>", True, "", "")  # the rule is alive even when nothing uses groupby
+    for fi in layer_functions(p):
+        aliases = {}
+        for n in ast.walk(fi.node):
+            if isinstance(n, ast.Assign) and len(n.targets) == 1 and isinstance(n.targets[0], ast.Name):
+                aliases.setdefault(n.targets[0].id, []).append(n.value)
+
+        def inline(e, depth=3):
+            e = ast.parse(ast.unparse(e), mode="eval").body  # private copy
+
+            class T(ast.NodeTransformer):
+                def visit_Name(self, node):
+                    vs = aliases.get(node.id)
+                    if isinstance(node.ctx, ast.Load) and vs and len(vs) == 1 and depth > 0:
+                        return inline(vs[0], depth - 1)
+                    return node
+
+            return T().visit(e)
+
+        for n in ast.walk(fi.node):
+            if not (isinstance(n, ast.Call) and (ast.unparse(n.func) in ("itertools.groupby", "groupby")) and n.args):
+                continue
+            where = "%s:%d" % (fi.module.relpath, n.lineno)
+            src = n.args[0]
+            gkey = next((k.value for k in n.keywords if k.arg == "key"), n.args[1] if len(n.args) > 1 else None)
+            construct = "%s@groupby" % fi.qualname
+            if not (isinstance(src, ast.Call) and ast.unparse(src.func) == "sorted"):
+                src_i = inline(src)
+                if isinstance(src_i, ast.Call) and ast.unparse(src_i.func) == "sorted":
+                    src = src_i
+                else:
+                    r.ob(rule, construct, False,
+                         "`%s` groups `%s`, which is not sorted first: groupby merges adjacent items only, so equal keys that are not "
+                         "neighbours in the argument order end up in different groups" % (ast.unparse(n)[:80], ast.unparse(src)[:40]), where)
+                    continue
+            skey = next((k.value for k in src.keywords if k.arg == "key"), None)
+            g_i = inline(gkey) if gkey is not None else None
+            s_i = inline(skey) if skey is not None else None
+            same = (g_i is None and s_i is None) or (g_i is not None and s_i is not None and ast.dump(g_i) == ast.dump(s_i))
+            if same:
+                r.ob(rule, construct, True, "", where)
+                continue
+            # group key = case mapping of the sort key?
+            verdict = None
+            if isinstance(g_i, ast.Lambda) and len(g_i.args.args) == 1 and s_i is not None:
+                body, prm = g_i.body, g_i.args.args[0].arg
+                if isinstance(body, ast.Call) and isinstance(body.func, ast.Attribute) and body.func.attr in ("upper", "lower", "casefold") and not body.args:
+                    inner = body.func.value
+                    applied = ast.Call(func=s_i, args=[ast.Name(id=prm, ctx=ast.Load())], keywords=[])
+                    if isinstance(s_i, ast.Lambda) and len(s_i.args.args) == 1:
+                        # compare bodies with the parameter renamed
+                        sb = ast.unparse(s_i.body).replace(s_i.args.args[0].arg, prm)
+                        if ast.unparse(inner) == sb:
+                            verdict = False
+                    elif ast.unparse(inner) == ast.unparse(applied):
+                        verdict = False
+            if verdict is False:
+                r.ob(rule, construct, False,
+                     "the items are sorted by `%s` (case-sensitive) but grouped by `%s` (case-insensitive): two spellings of one overhang "
+                     "are not adjacent after the sort whenever a third key sorts between them, so they land in separate groups and the "
+                     "duplicate is not seen" % (ast.unparse(skey), ast.unparse(gkey)), where)
+            else:
+                raise AnalysisError("%s: groupby key `%s` over an iterable sorted by `%s`: whether equal group keys are adjacent is not decided"
+                                    % (where, ast.unparse(gkey) if gkey is not None else None, ast.unparse(skey) if skey is not None else None))
